@@ -272,3 +272,123 @@ def run_links(ctx, n):
 def replay(ctx, hist):
     term, exp, problems, nontrivial, removed = run_history(ctx, hist)
     return {"removed": removed, "problems": problems, "violates": bool(problems)}
+
+
+# ------------------------------------------------------------------------------------------------
+# checkout + clean-up histories (oracle only): (1) a checkout records the link, (2) the user edits a
+# checked-out file (uncached bytes), (3) an unforced checkout of another object is refused, (4) clean-up
+# with the path not listed as used.  The path was modified since it was recorded - the only completed
+# checkout is (1) - so clean-up must not list it and the user's bytes must survive.
+
+
+def gen_refused_cases():
+    out = []
+    for kind in ("file", "dir"):
+        for cls in ("local", "base"):
+            for ty in ("copy", "hardlink", "symlink"):
+                for relink in (False, True):
+                    for pm in ("none", "no"):
+                        out.append({"refused_cleanup": True, "kind": kind, "cls": cls, "types": [ty], "relink": relink, "prompt": pm})
+    return out
+
+
+def run_refused_cleanup(ctx, case):
+    import hashlib
+
+    import dvc_data.hashfile.checkout as co
+    from dvc_objects.fs.local import localfs
+
+    from dvc_data.hashfile.hash_info import HashInfo
+    from dvc_data.hashfile.meta import Meta
+    from dvc_data.hashfile.state import State
+    from dvc_data.hashfile.tree import Tree
+
+    md5 = lambda b: hashlib.md5(b).hexdigest()  # noqa: E731, S324
+    root = ctx.fresh("refused")
+    cache, wsd, tmp = os.path.join(root, "cache"), os.path.join(root, "ws"), os.path.join(root, "tmp")
+    for d in (cache, wsd, tmp):
+        os.makedirs(d)
+    A, B, USER = b"version one\n", b"version two, longer\n", b"the user's edit - exists nowhere else\n"
+    t = 1_600_000_000
+    for b in (A, B):
+        p = impl.plant(cache, md5(b), b)
+        t += 5
+        os.utime(p, ns=(t * 10**9, t * 10**9))
+    state = State(root_dir=root, tmp_dir=tmp)
+    odb = impl.make_odb(case["cls"], cache, type=list(case["types"]), state=state)
+
+    def tree(d):
+        tr = Tree()
+        for rel, b in sorted(d.items()):
+            tr.add(tuple(rel.split("/")), Meta(size=len(b)), HashInfo("md5", md5(b)))
+        tr.digest()
+        return tr
+
+    if case["kind"] == "file":
+        path = os.path.join(wsd, "data.bin")
+        obj1, obj2 = odb.get(md5(A)), odb.get(md5(B))
+        edited = path
+    else:
+        path = os.path.join(wsd, "data")
+        obj1, obj2 = tree({"a": A, "sub/c": A, "keep": B}), tree({"a": B, "sub/c": B, "keep": B})
+        edited = os.path.join(path, "sub", "c")
+    rel = os.path.relpath(path, root)
+    problems = []
+    # (1) the checkout that records the link
+    co.checkout(path, localfs, obj1, odb, force=True, relink=False, state=state, quiet=True)
+    with state.links as ref:
+        recorded = rel in ref
+    # (2) the user edits a checked-out file: never through a link into the cache
+    if os.path.islink(edited) or os.stat(edited).st_nlink > 1:
+        os.unlink(edited)
+    with open(edited, "wb") as f:
+        f.write(USER)
+    t += 100
+    os.utime(edited, ns=(t * 10**9 + 250_000_000, t * 10**9 + 250_000_000))
+    # (3) the refused checkout
+    try:
+        co.checkout(path, localfs, obj2, odb, force=False, relink=case["relink"], state=state, quiet=True,
+                    prompt=None if case["prompt"] == "none" else (lambda msg: False))
+        out3 = "returned"
+    except co.PromptError:
+        out3 = "PromptError"
+    except Exception as exc:  # noqa: BLE001
+        out3 = type(exc).__name__
+    if out3 != "PromptError":
+        problems.append(("C05:unexpected-outcome:" + out3, f"an unforced checkout over an edited, uncached file {out3} instead of refusing"))
+    # (4) clean-up, the path not listed as used
+    unused = list(state.get_unused_links([], localfs))
+    state.remove_links(unused, localfs)
+    state.close()
+    if rel in unused:
+        problems.append(("C05:links:removed-modified",
+                         f"clean-up listed '{rel}' as unused although a file in it was modified after the only completed "
+                         f"checkout recorded it (a refused checkout in between); link recorded by step 1: {recorded}"))
+    try:
+        with open(edited, "rb") as f:
+            left = f.read()
+    except FileNotFoundError:
+        left = None
+    if left != USER:
+        problems.append(("C05:links:removed-modified" if rel in unused else "C05:unrecoverable-lost",
+                         f"the user's edit of '{os.path.relpath(edited, root)}' is gone after refused checkout + clean-up (now {left!r})"))
+    impl.rm_rf(root)
+    return problems, recorded, unused
+
+
+def run_refused(ctx, n):
+    cases = gen_refused_cases()
+    fixed = [c for c in cases if (c["kind"], c["cls"], c["types"][0], c["relink"], c["prompt"]) in (
+        ("file", "local", "copy", False, "none"), ("dir", "base", "copy", True, "no"),
+        ("file", "base", "symlink", True, "none"), ("dir", "local", "hardlink", False, "none"))]
+    rest = [c for c in cases if c not in fixed]
+    chosen = fixed + (rest if n >= len(rest) else ctx.rng.sample(rest, n))
+    for case in chosen:
+        problems, recorded, unused = run_refused_cleanup(ctx, case)
+        ctx.case(case, recorded)
+        ctx.count("refused-cleanup:" + case["kind"])
+        for sig, what in problems:
+            ctx.oracle_fail(sig, what, case)
+    ctx.obligation("oracle:refused-checkout-then-cleanup",
+                   not any(v.kind == "oracle" and v.case is not None and isinstance(v.case, dict) and v.case.get("refused_cleanup") for v in ctx.violations),
+                   f"{len(chosen)} histories checkout / user edit / refused checkout / clean-up judged by the oracle only (the edit survives)")
